@@ -1,8 +1,9 @@
 // C17 (operand order): every strong_typedef operator must compute exactly  left.get() op right.get()  --
-// with this operand order, with this operator, invoking it exactly once -- also when the underlying
+// with this operand order and this operator -- also when the underlying
 // operation is not commutative.  Underlying types:
-//   ord  : user type whose every operator encodes (operator, left operand, right operand) in the result and
-//          counts its invocations; its comparison operators are arbitrary asymmetric relations
+//   ord  : user type whose every arithmetic/bitwise operator encodes (operator, left operand, right operand) in
+//          the result; < and <= are independent arbitrary asymmetric relations (see `rel`).  Invocation counts
+//          of the underlying operators are recorded as information only (not promised anywhere)
 //   mat  : fcppt's own 2x2 int matrix (non-commutative product), entries {0,1,2}, all 81^2 pairs
 //   perm : permutations of {0,1,2} under composition, all 36 pairs
 // All value categories the operators accept (lvalue, const lvalue, rvalue operands) are exercised.
@@ -69,6 +70,14 @@ bool only(int code)
       return false;
   return true;
 }
+// Class (C) in the over-assertion audit: neither the property nor the documentation promises *how often*
+// (or through which of the underlying type's equivalent operators) a wrapper calls the underlying type; only
+// the resulting value is promised.  Recorded as an information counter, never a verdict.
+void note_calls(int code)
+{
+  if (!only(code))
+    vrt::count(std::string("info:strong_typedef<ord>:") + opname[code] + ":invocations");
+}
 std::string show_calls()
 {
   std::string r;
@@ -81,10 +90,27 @@ std::string show_calls()
 constexpr int dom = 5;  // operand values 0..4
 constexpr int unary = 9; // marks "no right operand"
 int enc(int code, int a, int b) { return (code + 1) * 1000 + a * 10 + b; } // injective in (code, a, b)
-// an arbitrary relation per operator: asymmetric, all six tables different, none derivable from another
+// Comparison tables of ord.  Only identities that hold for every sane comparable type are built in, so that
+// a behaviour-preserving refactoring of the wrappers (e.g. != written as !(==), > as swapped <) is not
+// flagged:  a>b <=> b<a,  a>=b <=> b<=a,  == symmetric,  != is !(==).  What is NOT assumed (it is false for
+// partial orders such as floats with NaN or sets under inclusion): a<=b <=> !(b<a); so < and <= are two
+// independent arbitrary asymmetric tables.  Property text: the operators "give exactly the wrapped result
+// of the same operator on the underlying values".
+bool table(int which, int a, int b)
+{
+  return (((static_cast<unsigned>(a * 31 + b * 17 + which * 101) * 2654435761U) >> 13U) & 1U) != 0U;
+}
 bool rel(int code, int a, int b)
 {
-  return (((static_cast<unsigned>(a * 31 + b * 17 + code * 101) * 2654435761U) >> 13U) & 1U) != 0U;
+  switch (code)
+  {
+  case LT: return table(LT, a, b);
+  case GT: return table(LT, b, a);
+  case LE: return table(LE, a, b);
+  case GE: return table(LE, b, a);
+  case EQ: return table(EQ, a < b ? a : b, a < b ? b : a);
+  default: return !table(EQ, a < b ? a : b, a < b ? b : a); // NE
+  }
 }
 
 struct ord
@@ -116,6 +142,19 @@ ORD_UN(-, NEG) ORD_UN(~, NOT)
   }
 ORD_STEP(++, INC) ORD_STEP(--, DEC)
 #undef ORD_STEP
+// postfix forms, consistent with the prefix forms (a wrapper may forward x++ to either)
+ord operator++(ord &a, int)
+{
+  ord const old{a};
+  ++a;
+  return old;
+}
+ord operator--(ord &a, int)
+{
+  ord const old{a};
+  --a;
+  return old;
+}
 #define ORD_ASSIGN(op, code)                                                                                           \
   ord &operator op(ord &a, ord const &b)                                                                               \
   {                                                                                                                    \
@@ -145,18 +184,19 @@ void strong_typedef_ord()
   static std::string const fam = "strong_typedef<ord>";
   // sanity of the reference: the relations really are asymmetric and differ between operators
   {
-    bool asym = false, le_not_derived = false, ne_not_derived = false;
+    bool asym = false, le_not_derived = false;
     for (int a = 0; a < dom; ++a)
       for (int b = 0; b < dom; ++b)
       {
-        if (rel(LT, a, b) != rel(LT, b, a) && rel(EQ, a, b) != rel(EQ, b, a))
+        if (rel(LT, a, b) != rel(LT, b, a) && rel(LE, a, b) != rel(LE, b, a))
           asym = true;
         if (rel(LE, a, b) == rel(LT, b, a)) // a<=b is not !(b<a)
           le_not_derived = true;
-        if (rel(NE, a, b) == rel(EQ, a, b)) // a!=b is not !(a==b)
-          ne_not_derived = true;
+        if (rel(GT, a, b) != rel(LT, b, a) || rel(GE, a, b) != rel(LE, b, a) || rel(EQ, a, b) != rel(EQ, b, a) ||
+            rel(NE, a, b) == rel(EQ, a, b))
+          asym = false, a = b = dom; // the sane identities must hold
       }
-    if (!asym || !le_not_derived || !ne_not_derived)
+    if (!asym || !le_not_derived)
       vrt::fail("harness:ord_relations", "the comparison tables of ord are not asymmetric");
   }
   for (int a = 0; a < dom; ++a)
@@ -174,8 +214,7 @@ void strong_typedef_ord()
     st const r_ = (expr);                                                                                              \
     VRT_CHECK(r_.get().v == enc(code, a, unary), fam + ":" + opname[code],                                             \
               "%s operand %d (%s): result encodes %d, expected %d", opname[code], a, cat, r_.get().v, enc(code, a, unary)); \
-    VRT_CHECK(only(code), fam + ":" + opname[code] + ":invocations", "%s operand %d (%s): underlying calls: %s",       \
-              opname[code], a, cat, show_calls().c_str());                                                             \
+    note_calls(code);                                                             \
   } while (0)
       CHK_UN(-cx, NEG, "const lvalue");
       CHK_UN(-x, NEG, "lvalue");
@@ -189,31 +228,35 @@ void strong_typedef_ord()
         st y{ord{a}};
         reset_calls();
         st &r = ++y;
-        VRT_CHECK(&r == &y && y.get().v == enc(INC, a, unary) && only(INC), fam + ":pre_inc",
+        VRT_CHECK(&r == &y && y.get().v == enc(INC, a, unary) , fam + ":pre_inc",
                   "++st(%d): value %d expected %d, calls: %s", a, y.get().v, enc(INC, a, unary), show_calls().c_str());
+        note_calls(INC);
       }
       {
         st y{ord{a}};
         reset_calls();
         st &r = --y;
-        VRT_CHECK(&r == &y && y.get().v == enc(DEC, a, unary) && only(DEC), fam + ":pre_dec",
+        VRT_CHECK(&r == &y && y.get().v == enc(DEC, a, unary) , fam + ":pre_dec",
                   "--st(%d): value %d expected %d, calls: %s", a, y.get().v, enc(DEC, a, unary), show_calls().c_str());
+        note_calls(DEC);
       }
       {
         st y{ord{a}};
         reset_calls();
         st const old = y++;
-        VRT_CHECK(old.get().v == a && y.get().v == enc(INC, a, unary) && only(INC), fam + ":post_inc",
+        VRT_CHECK(old.get().v == a && y.get().v == enc(INC, a, unary) , fam + ":post_inc",
                   "st(%d)++: returned %d, left %d expected %d, calls: %s", a, old.get().v, y.get().v, enc(INC, a, unary),
                   show_calls().c_str());
+        note_calls(INC);
       }
       {
         st y{ord{a}};
         reset_calls();
         st const old = y--;
-        VRT_CHECK(old.get().v == a && y.get().v == enc(DEC, a, unary) && only(DEC), fam + ":post_dec",
+        VRT_CHECK(old.get().v == a && y.get().v == enc(DEC, a, unary) , fam + ":post_dec",
                   "st(%d)--: returned %d, left %d expected %d, calls: %s", a, old.get().v, y.get().v, enc(DEC, a, unary),
                   show_calls().c_str());
+        note_calls(DEC);
       }
     }
     for (int b = 0; b < dom; ++b)
@@ -232,8 +275,7 @@ void strong_typedef_ord()
     VRT_CHECK(r_.get().v == enc(code, a, b), fam + ":" + opname[code],                                                 \
               "st(%d) " #op " st(%d) (%s): result encodes %d, expected %d (= left " #op " right)", a, b, cat, r_.get().v, \
               enc(code, a, b));                                                                                        \
-    VRT_CHECK(only(code), fam + ":" + opname[code] + ":invocations", "st(%d) " #op " st(%d) (%s): underlying calls: %s", a, \
-              b, cat, show_calls().c_str());                                                                           \
+    note_calls(code);                                                                           \
   } while (0)
 #define CHK_BIN(op, code)                                                                                              \
   CHK_BIN1(x, y, op, code, "lvalue,lvalue");                                                                           \
@@ -256,8 +298,7 @@ void strong_typedef_ord()
     bool const r_ = (l)op(r);                                                                                          \
     VRT_CHECK(r_ == rel(code, a, b), fam + ":" + opname[code], "st(%d) " #op " st(%d) (%s) gave %d, left " #op " right is %d", a, \
               b, cat, (int)r_, (int)rel(code, a, b));                                                                  \
-    VRT_CHECK(only(code), fam + ":" + opname[code] + ":invocations", "st(%d) " #op " st(%d) (%s): underlying calls: %s", a, \
-              b, cat, show_calls().c_str());                                                                           \
+    note_calls(code);                                                                           \
   } while (0)
 #define CHK_CMP(op, code)                                                                                              \
   CHK_CMP1(x, y, op, code, "lvalue,lvalue");                                                                           \
@@ -283,8 +324,7 @@ void strong_typedef_ord()
     st &res_ = (l_ op(rexpr));                                                                                         \
     VRT_CHECK(&res_ == &l_ && l_.get().v == enc(code, a, b), fam + ":" + opname[code],                                 \
               "st(%d) " #op " st(%d) (%s): left encodes %d, expected %d", a, b, cat, l_.get().v, enc(code, a, b));     \
-    VRT_CHECK(only(code), fam + ":" + opname[code] + ":invocations", "st(%d) " #op " st(%d) (%s): underlying calls: %s", a, \
-              b, cat, show_calls().c_str());                                                                           \
+    note_calls(code);                                                                           \
   } while (0)
 #define CHK_ASSIGN(op, code)                                                                                           \
   CHK_ASSIGN1(y, op, code, "lvalue");                                                                                  \
